@@ -878,6 +878,12 @@ func c18padding(c *Ctx) {
 						if isU(x) && isLen(y) {
 							return ul, true
 						}
+						// an emptiness guard: when the padding byte is smaller than the length, the length is at least 1
+						if isLen(x) && y != nil && y.Kind == px.KConst && ul < 0 {
+							if cv, ok := y.V.(*ssa.Const); ok && cv.Value != nil && cv.Int64() == 0 {
+								return 1, true
+							}
+						}
 						return 0, false
 					}, nil)})
 			}
